@@ -28,11 +28,15 @@ def _mats(case, m, n, N):
         # the Panel object was used before for another lay-up; the lists are then edited in place to the one under test
         L = case['lam']
         c['lam'] = dict(L, stack=list(pre['stack']), plyts=list(pre['plyts']), uniform=False)
+        c['a'], c['b'] = case['a'] * pre.get('fa', 1.), case['b'] * pre.get('fb', 1.)
         p = pkg.make_panel(c)
+        p.Nxx, p.Nyy, p.Nxy = N
         with package('matrices[prelude]'):
             p.calc_k0(silent=True)
+            p.calc_kG0(silent=True)
             if pre['also_kM']:
                 p.calc_kM(silent=True)
+        p.a, p.b = case['a'], case['b']
         if not p.plyts:
             p.plyts = list(pre['plyts'])
         for i in range(len(L['stack'])):
@@ -239,7 +243,7 @@ def _closed_strategy(draw, tier='quick'):
     prelude = None
     if draw(st.integers(0, 3)) == 0:
         prelude = {'stack': [90. - x if draw(st.booleans()) else x for x in stack], 'plyts': [q * draw(st.sampled_from([1., 2., 0.5])) for q in plyts],
-                   'also_kM': draw(st.booleans())}
+                   'also_kM': draw(st.booleans()), 'fa': draw(st.sampled_from([1., 1., 2., 0.5])), 'fb': draw(st.sampled_from([1., 1., 2., 0.5]))}
     r = draw(gen.fl(0., 1.))
     mn = draw(st.sampled_from([6, 8, 10, 12] if tier == 'quick' else [8, 10, 12, 16, 16]))
     return {'model': model, 'a': a, 'b': b, 'm': mn, 'n': mn, 'lam': lam, 'flags': fl, 'uniform_form': False, 'r': None,
